@@ -83,6 +83,10 @@ def correspondence(ctx):
                 texts.append(s)
             if not cons:
                 continue
+            if rng.random() < 0.15:
+                # "any count": the same constraint held twice
+                c0 = rng.choice(cons)
+                cons.append(VersionConstraint(comparator=c0.comparator, version=c0.version))
             rng.shuffle(cons)
             try:
                 r = rc(constraints=cons)
